@@ -11,7 +11,17 @@ import cli
 import common
 import lsp
 
-LOCATED = re.compile(r"file://[^\s\]]*:\d+:\d+")
+URLS = re.compile(r"file://[^\s\]\)]*")
+
+
+def located_in(stderr, d, files):
+    """the diagnostic names one of the source modules (with or without line:column)"""
+    for u in URLS.findall(stderr):
+        u = re.sub(r"(:\d+)+$", "", u.rstrip(":"))
+        for rel in files:
+            if u == "file://" + os.path.join(d, rel):
+                return True
+    return False
 _counter = [0]
 _lock = threading.Lock()
 
@@ -28,7 +38,7 @@ def run_cli(src, base=None, via_config=False, target_exists=False):
     r = cli.run(src["files"], main=src.get("main", "main.oal"), base=base, via_config=via_config,
                 target_exists=target_exists, workdir=d, timeout=60.0)
     shutil.rmtree(d, ignore_errors=True)
-    obs = {"exit": r["exit"], "changed": r["target_changed"], "located": bool(LOCATED.search(r["stderr"])),
+    obs = {"exit": r["exit"], "changed": r["target_changed"], "located": located_in(r["stderr"], d, src["files"]),
            "timed_out": r["timed_out"], "stderr": r["stderr"][:300] + (" ... " + r["stderr"][-300:] if len(r["stderr"]) > 300 else ""), "target": r["target"] if r["target_changed"] else None}
     return obs
 
